@@ -42,8 +42,8 @@ def zip3_to_index(body):
     g = _re.match(r'\s*if\s+([^{};]+?)\s*\{\s*continue;\s*\}', inner)
     if g:
         inner = ' if !(%s) {' % g.group(1) + inner[g.end():] + '}\n'
-    if _re.search(r'\bcontinue\b|\bbreak\b', _lex.mask(inner)):
-        raise _lex.ExtractError('zip3_to_index: continue/break in loop body not supported')
+    if _re.search(r'\bcontinue\b', _lex.mask(inner)):
+        raise _lex.ExtractError('zip3_to_index: continue in loop body not supported')
     inner = _re.sub(r'\bst\.', 'self.error_states[i].', inner)
     new = body[:m0.start()] + body[m0.end():m.start()] + 'for i in 0..N {' + inner + '}' + body[cb + 1:]
     return new, 1
